@@ -357,6 +357,24 @@ func c20BTSingle(r *Run, cfg *Stream) {
 		}
 	}
 	if !r.Failed() {
+		// whatever schemas the (perturbed) admin requests left behind - GC rules with negative
+		// or absurd numbers included - a garbage-collection pass over populated tables must not
+		// take the server down (the real pass runs on a background goroutine: a panic there
+		// kills the process)
+		if names, err := w.ListTables("projects/p/instances/i"); err == nil {
+			for _, name := range names {
+				if name == c20Keep {
+					continue
+				}
+				if t, err := w.GetTable(name); err == nil {
+					for f := range t.ColumnFamilies {
+						w.MutateRow(name, "gcrow", mutList{setCell(f, "q", 1000, "a"), setCell(f, "q", 2000, "b")})
+					}
+				}
+				w.GC(name, true)
+				r.Probe("c20.gc_after_perturbed_schema")
+			}
+		}
 		c20BTProbe(r, w, model, "at the end")
 	}
 	r.nontrivial = true
